@@ -83,7 +83,7 @@ Fixpoint ccomps_read (fuel : nat) (c : ctxt) : outcome (list ccomp * bool * ctxt
 (* CompositeGlyph::read (after Glyph::read has taken number_of_contours < 0) *)
 Definition cglyph_read (m : mode) (c : ctxt) : outcome (cglyph * ctxt) :=
   '(bbox, c1) <- read_ty (rprims bounding_box_read) c ;;
-  '(r, c2) <- ccomps_read (S (length (data (sc c1)))) c1 ;;
+  '(r, c2) <- ccomps_read (S (length (drop (off c1) (data (sc c1))))) c1 ;;     (* fuel: bytes left + 1 *)
   let '(comps, have_instructions) := r in
   '(il, c3) <- (if have_instructions then read_prim PU16 c2 else Ok (0, c2)) ;;
   '(instr, c4) <- read_slice m c3 il ;;
